@@ -219,6 +219,7 @@ def check(ctx):
     ctx.rule("R8", "the assignment-target check, whose SyntaxError is what sends `cmd --opt=value` to the recovery loop, reaches every statement position of the tree: its visitor traverses every statement-holding field the interpreter's grammar has (body, orelse, finalbody, handlers, cases ...) and every container visitor it overrides goes on into the children", floor=2)
     ctx.rule("R9", "sibling phases agree on window arithmetic: wherever a column taken from one physical line is used as a position in the joined logical line (get_logical_line), the lengths of the preceding physical lines are added when the logical line spans several", floor=2)
     ctx.rule("R10", "a cheap pre-check never answers 'no break here' for a text in which the scan would find one: the pattern tried before the token scan of find_next_break matches, as a bare substring, every spelling of every token type the scan stops at (END_TOK_TYPES) - the text it sees starts at the parser's error column, so a keyword can sit at its very beginning", floor=6)
+    ctx.rule("R11", "whether a quoted word is a complete string is decided by the shared string pattern alone: every verdict of tools.check_quotes is a constant (decided by which ends carry a quote) or the match / no-match of a module-level RE_* pattern on the whole word - no second opinion computed from the text itself (endswith / count / slicing cannot tell an escaping backslash from an escaped one)", floor=3)
     ctx.rule("R6", "line tables indexed by the parser's line numbers are split the way the parser counts lines (\\n only)", floor=2)
     ctx.rule("R5", "every verdict of the open-triple-quote scanner comes out of its quote- and comment-aware scan (or is 'nothing open' when no marker occurs at all); the line joiners ask only the scanner", floor=4)
     ctx.rule("R4", "the line returned by tools.subproc_toks is built only from slices of the source line and the literals '![' and ']'", floor=3)
@@ -557,6 +558,7 @@ def check(ctx):
     _context_check_reach(ctx)
     _window_offsets(ctx)
     _prefilter_complete(ctx)
+    _quote_verdict_by_pattern(ctx)
 
 
 def _window_offsets(ctx):
@@ -790,6 +792,55 @@ def _prefilter_complete(ctx):
         for sp in sorted(sps):
             ok = any(l_ and l_ in sp for l_ in lits)
             ctx.ob("R10", st, f"the pre-check pattern matches the spelling {sp!r} of {ty} wherever it stands (a literal alternative, no context demanded)", ok, key=f"find_next_break|prefilter-misses|{sp}", where=loc(pre), detail=f"literal alternatives: {sorted(lits)}" if not ok else None)
+
+
+def _quote_verdict_by_pattern(ctx):
+    tl = ctx.repo.module(TL)
+    fn = flat(ctx, tl.func("check_quotes"), 1)
+    st = f"{TL}:check_quotes"
+    sp = param_name(fn, 0, skip_self=False)
+    defs = df.all_defs(fn)
+    rets = [r for r in walk_local(fn) if isinstance(r, ast.Return) and r.value is not None]
+    if not rets:
+        raise AnalysisError(f"{st}: no return")
+
+    def by_pattern(e, depth=0):
+        """constant, or <m> is (not) None with m = RE_X.match/fullmatch(<the word>), or such a call tested directly"""
+        if depth > 4:
+            return False
+        if isinstance(e, ast.Constant):
+            return isinstance(e.value, bool)
+        if isinstance(e, ast.UnaryOp) and isinstance(e.op, ast.Not):
+            return by_pattern(e.operand, depth + 1)
+        if isinstance(e, ast.Compare) and len(e.ops) == 1 and isinstance(e.ops[0], (ast.Is, ast.IsNot)) and const_value(e.comparators[0], 0) is None:
+            return by_pattern(e.left, depth + 1) or is_match(e.left)
+        if isinstance(e, ast.Name):
+            ds = defs.get(e.id, [])
+            return bool(ds) and all(d.value is not None and (by_pattern(d.value, depth + 1) or is_match(d.value)) for d in ds)
+        if isinstance(e, ast.Call) and call_name(e) == "bool" and len(e.args) == 1:
+            return by_pattern(e.args[0], depth + 1) or is_match(e.args[0])
+        return False
+
+    def is_match(e):
+        if isinstance(e, ast.Name):
+            ds = defs.get(e.id, [])
+            return bool(ds) and all(d.value is not None and is_match(d.value) for d in ds)
+        return isinstance(e, ast.Call) and isinstance(e.func, ast.Attribute) and e.func.attr in ("match", "fullmatch") and isinstance(e.func.value, ast.Name) and e.func.value.id.startswith("RE_") and (e.func.value.id in tl.assigns or tl.has(e.func.value.id)) and e.args and unparse(e.args[0]) == sp
+
+    names = {r.value.id for r in rets if isinstance(r.value, ast.Name)}
+    n = 0
+    for r in rets:
+        if not isinstance(r.value, ast.Name):
+            n += 1
+            ctx.ob("R11", st, f"`{short(r, 50)}` is a constant or the pattern's verdict", by_pattern(r.value), key="check_quotes|verdict-from-text", where=loc(r))
+    for nm in sorted(names):
+        for d in defs.get(nm, []):
+            if d.value is None:
+                continue
+            n += 1
+            ctx.ob("R11", st, f"`{nm} = {short(d.value, 50)}` is a constant or the pattern's verdict", by_pattern(d.value), key="check_quotes|verdict-from-text", where=loc(d.stmt))
+    if n < 3:
+        raise AnalysisError(f"{st}: only {n} verdict definitions found")
 
 META = {
     "technique": "static analysis: call-graph reachability from Execer.parse, loop-variant catalogue checked by CFG cycle queries (no cycle through the loop head without a progress statement), guard facts on the recursion, raise-provenance, string-provenance of the wrapper",
